@@ -36,11 +36,14 @@ class Slow(http.server.BaseHTTPRequestHandler):
         type(self).hits += 1
         time.sleep(type(self).delay)
         body = b"slow-answer-complete"
-        self.send_response(200)
-        self.send_header("Content-Type", "text/plain")
-        self.send_header("Content-Length", str(len(body)))
-        self.end_headers()
-        self.wfile.write(body)
+        try:
+            self.send_response(200)
+            self.send_header("Content-Type", "text/plain")
+            self.send_header("Content-Length", str(len(body)))
+            self.end_headers()
+            self.wfile.write(body)
+        except OSError:
+            pass                      # the proxy gave up on the exchange (that is what the scenario reports)
 
     def log_message(self, *a):
         pass
@@ -54,19 +57,21 @@ def build_binary(ctx):
     return out
 
 
-def scenario(ctx, binary, sigs, gap_ms, first_after_ms=250):
+def scenario(ctx, binary, sigs, gap_ms, first_after_ms=250, handler_s=30, shutdown_s=10, delay_s=1.0, upgrade_offer=False):
     """sigs: signals to deliver; the first `first_after_ms` after the request was sent, the others `gap_ms` apart.
     Returns a dict of observations."""
     bport, fport = free_port(), free_port()
-    srv = http.server.ThreadingHTTPServer(("127.0.0.1", bport), Slow)
+    handler_cls = type("SlowD", (Slow,), {"delay": delay_s, "hits": 0})
+    srv = http.server.ThreadingHTTPServer(("127.0.0.1", bport), handler_cls)
     th = threading.Thread(target=srv.serve_forever, daemon=True)
     th.start()
     cfg = ctx.path("sig_%d.yaml" % fport)
     with open(cfg, "w") as f:
-        f.write("server:\n  port: %d\n  timeouts:\n    shutdown: 10\n    handler: 30\nbackends:\n  - name: slow\n    address: http://127.0.0.1:%d\n"
-                "load_balancer:\n  strategy: round_robin\nlogging:\n  level: error\n" % (fport, bport))
+        f.write("server:\n  port: %d\n  timeouts:\n    shutdown: %d\n    handler: %d\nbackends:\n  - name: slow\n    address: http://127.0.0.1:%d\n"
+                "load_balancer:\n  strategy: round_robin\nlogging:\n  level: error\n" % (fport, shutdown_s, handler_s, bport))
     proc = subprocess.Popen([binary, "-config", cfg], stdout=subprocess.DEVNULL, stderr=subprocess.DEVNULL)
-    obs = {"signals": [s.name for s in sigs], "gap_ms": gap_ms}
+    obs = {"signals": [s.name for s in sigs], "gap_ms": gap_ms, "handler_s": handler_s, "shutdown_s": shutdown_s, "backend_delay_s": delay_s,
+           "upgrade_offer": upgrade_offer}
     try:
         for _ in range(100):
             try:
@@ -82,7 +87,9 @@ def scenario(ctx, binary, sigs, gap_ms, first_after_ms=250):
         def client():
             try:
                 c = http.client.HTTPConnection("127.0.0.1", fport, timeout=15)
-                c.request("GET", "/slow")
+                # (an upgrade offer the backend declines: such requests are exempt from the handler deadline, so the
+                # shutdown timeout is the only bound on them)
+                c.request("GET", "/slow", headers={"Connection": "Upgrade", "Upgrade": "h2c"} if upgrade_offer else {})
                 r = c.getresponse()
                 result["status"] = r.status
                 result["body"] = r.read().decode("latin-1")
@@ -128,11 +135,17 @@ def check(ctx):
     T, I = signal.SIGTERM, signal.SIGINT
     plans = [([T], 0), ([T, T], 300), ([I, T], 150), ([T, T, T], 100)] if ctx.thorough() else [([T], 0), ([T, T], 300)]
     ran = 0
-    for sigs, gap in plans:
-        obs = scenario(ctx, binary, sigs, gap)
+    plans = [(sg, gp, {}) for sg, gp in plans]
+    # the shutdown timeout is what bounds the wait, whatever the other timeouts are: a request that outlives the
+    # (shorter) handler timeout legitimately — an upgrade offer — and ends well inside the shutdown timeout
+    plans.append(([T], 0, dict(handler_s=1, shutdown_s=8, delay_s=2.5, upgrade_offer=True)))
+    if ctx.thorough():
+        plans.append(([T, T], 400, dict(handler_s=2, shutdown_s=9, delay_s=3.5, upgrade_offer=True)))
+    for sigs, gap, kw in plans:
+        obs = scenario(ctx, binary, sigs, gap, **kw)
         fails = judge(obs)
         if fails and "could not run" not in fails[0]:
-            obs2 = scenario(ctx, binary, sigs, gap)        # wall-clock scenario: a defect shows again
+            obs2 = scenario(ctx, binary, sigs, gap, **kw)        # wall-clock scenario: a defect shows again
             if judge(obs2):
                 C.violation(ctx, "process-signals", {"what": "stop signals delivered to the real process while a request is in flight",
                                                      "oracle_failures": judge(obs2), "observed": obs2, "first_run": obs})
